@@ -7,8 +7,8 @@ CONSTANTS
   Prod = {p1, p2}
   Cons = {c1}
   Cap = 2
-  NSend = 3
-  NRecv = 2
+  NSend <- S33
+  NRecv <- R2
   TwoStep = TRUE
   PhotonSend = TRUE
   Timed = TRUE
